@@ -33,7 +33,8 @@ DIMS = {
                  ['cia', 'abs', 'ray']],
     'kind': ['emission', 'directimage'],
     'opmode': ['xsec', 'kdeg', 'kspread'],
-    'starT': [5000.0, 3000.0],
+    # (2e5 K: h c nu / k T is below 0.01 at the low end of the grid - the Rayleigh-Jeans end of the Planck function)
+    'starT': [5000.0, 3000.0, 2e5],
     'rplanet': [1.0, 0.4],
     'rstar': [1.0, 0.3],
     'distance': [1.0, 7.0],
@@ -221,7 +222,9 @@ HIST_ALPHABET = [['T', 700.0], ['T', 1900.0], ['planet_radius', 0.7], ['planet_r
                  ['star_temperature', 3500.0], ['star_temperature', 7000.0], ['star_radius', 4e8]]
 # requested spectral windows of equal length at both ends of the native grid, and the full grid again
 HIST_ALPHABET += [['__window__', [1000.0, 2000.0]], ['__window__', [3000.0, 4000.0]], ['__window__', None]]
-HIST_REDUCED = [['T', 700.0], ['T', 1900.0], ['star_temperature', 3500.0], ['H2O', 1e-2], ['atm_max_pressure', 1e5]]
+HIST_ALPHABET += [['H2O', 1.5]]      # rejected (above one): the history continues from the rejected state
+# ['H2O', 1.5]: a mixing ratio above one - the model is rejected, and the history goes on from there
+HIST_REDUCED = [['H2O', 1.5], ['T', 700.0], ['T', 1900.0], ['star_temperature', 3500.0], ['H2O', 1e-2], ['atm_max_pressure', 1e5]]
 
 
 def hist_build(case, net=None):
